@@ -147,11 +147,20 @@ class Solver(object):
                 solved_values.update(s)
                 progress = progress or (len(s) > 0)
 
+        # atoms are numbered in the order the stack was filled (x_0, x_1, ... x_10, ...):
+        # order them by that number, not by name ("x_10" < "x_2" as strings)
+        def atom_number(k: Any) -> int:
+            return int(k.name.split("_")[-1])
+
         x_keys = sorted(
-            (k for k in solved_values.keys() if k.name.startswith("x")), reverse=True
+            (k for k in solved_values.keys() if k.name.startswith("x")),
+            key=atom_number,
+            reverse=True,
         )
         w_keys = sorted(
-            (k for k in solved_values.keys() if k.name.startswith("w")), reverse=True
+            (k for k in solved_values.keys() if k.name.startswith("w")),
+            key=atom_number,
+            reverse=True,
         )
         solution_list = [solved_values.get(k) for k in x_keys]
         witness_list = [solved_values.get(k) for k in w_keys]
